@@ -47,7 +47,7 @@ MCMOD = "solver/MC_Checkpoint"
 # rg) that are taken from TLC's own catalogue print-out: constraint / penalty / monitor class / termination / objective
 FLAVOUR = {
     1: dict(), 2: dict(), 3: dict(cons="pure", cost="bumpy"), 4: dict(cons="mystic"), 5: dict(pen=True, cost="bumpy"),
-    6: dict(mon="Monitor"), 7: dict(mon="Verbose"), 8: dict(), 9: dict(), 10: dict(), 11: dict(cost="bumpy"),
+    6: dict(mon="Monitor", cost="wall"), 7: dict(mon="Verbose"), 8: dict(), 9: dict(), 10: dict(), 11: dict(cost="wall"),
     12: dict(mon="Monitor"), 13: dict(cons="pure", pen=True, mon="Monitor"), 14: dict(term="compound", cost="bumpy"),
     15: dict(mon="Verbose"), 16: dict(), 17: dict(mon="Monitor", cost="bumpy"), 18: dict(cons="pure"), 19: dict(pen=True),
 }
@@ -104,7 +104,11 @@ def make_solver(kind, attrs, fileP, seed, NP):
     else:
         s.SetInitialPoints(X0[kind])
     # Powell converges on the non-smooth objective within 5 generations: it always gets the Rosenbrock valley
-    s.SetObjective(U.bumpy if fl.get("cost") == "bumpy" and kind != "PW" else U.rosen)
+    # "wall": an objective that is +inf on a half-space (DE kinds: members there keep the initial inf energy)
+    s.SetObjective(U.bumpy if fl.get("cost") == "bumpy" and kind != "PW" else
+                   U.wall if fl.get("cost") == "wall" and (kind == "DE" or (kind == "DE2" and attrs["em"])) else U.rosen)
+    # (DE2 without an evaluation monitor counts the finite entries of the map's result: a cost that returns inf is then
+    #  under-counted -- known finding of C04, keyed there; not mixed into the C06 clauses)
     never = mt.ChangeOverGeneration(tolerance=1e-300, generations=10 ** 6)
     if fl.get("term") == "compound":
         s.SetTermination(mt.Or(never, mt.VTR(1e-12, -1.0), mt.When(mt.VTR(1e-12, -2.0))))
